@@ -78,9 +78,11 @@ class Sched:
         self.rpos = 0
         # statement-level pre-emption inside helpers.py (sys.monitoring LINE events)
         self.line_p = line_p
-        self.lreplay = list(line_decisions) if line_decisions is not None else None
-        self.lpos = 0
-        self.ldecisions = []
+        # recorded as {"<task>:<k>": d} = decision at the k-th instrumented line executed by
+        # that task (stable under removal of other tasks' pre-emptions)
+        self.lreplay = dict(line_decisions) if line_decisions is not None else None
+        self.lcount = {}
+        self.ldecisions = {}
         self.line_yields = 0
         self.line_stalls = 0
         self.stall_p = 0.0
@@ -138,9 +140,16 @@ class Sched:
         if len(runnable) == 1:
             return runnable[0]
         if self.replay is not None:
-            d = self.replay[self.rpos] if self.rpos < len(self.replay) else 0
+            # recorded choices are task names; a name that is not runnable here (the schedule
+            # was edited by the minimiser) falls back to the first runnable task
+            d = self.replay[self.rpos] if self.rpos < len(self.replay) else None
             self.rpos += 1
-            idx = d % len(runnable)
+            idx = 0
+            if d:
+                for j, t in enumerate(runnable):
+                    if t.name == d:
+                        idx = j
+                        break
         elif self.personality == "round_robin":
             self.rr += 1
             idx = self.rr % len(runnable)
@@ -154,24 +163,27 @@ class Sched:
                 if x < acc:
                     idx = j
                     break
-        self.decisions.append(idx)
+        self.decisions.append(runnable[idx].name if idx else "")
         return runnable[idx]
 
     STALLS = (0.05, 0.3, 1.2, 4.0)
 
-    def ldecide(self):
+    def ldecide(self, me):
         """pre-empt at this source line of helpers.py? 0 = no, -1 = yield the baton,
         dt > 0 = the process is descheduled (stalled) for dt simulated seconds"""
+        k = self.lcount.get(me.name, 0)
+        self.lcount[me.name] = k + 1
+        key = f"{me.name}:{k}"
         if self.lreplay is not None:
-            d = self.lreplay[self.lpos] if self.lpos < len(self.lreplay) else 0
-            self.lpos += 1
+            d = self.lreplay.get(key, 0)
         else:
             d = 0
             if self.rng.random() < self.line_p:
                 d = -1
                 if self.rng.random() < self.stall_p:
                     d = self.rng.choice(self.STALLS)
-        self.ldecisions.append(d)
+        if d:
+            self.ldecisions[key] = d
         return d
 
     # -- dispatch -------------------------------------------------------------------
@@ -312,12 +324,12 @@ _mon_installed = False
 
 def _on_line(code, line):
     s = _SCHED
-    if s is None or not (s.line_p or s.lreplay) or s.abort:
+    if s is None or not (s.line_p or s.lreplay is not None) or s.abort:
         return None
     me = s.by_ident.get(threading.get_ident())
     if me is None or me.state != "running" or s.cur is not me:
         return None
-    d = s.ldecide()
+    d = s.ldecide(me)
     if d:
         s.line_yields += 1
         if d > 0:
